@@ -107,3 +107,25 @@ extern "C" void cpp_xof(int a, size_t declared, const unsigned char *m, size_t n
     else if (declared == 32) { if (a) xof_cpp<ascon::xofa_with_output_length<32> >(m, n, out, outlen); else xof_cpp<ascon::xof_with_output_length<32> >(m, n, out, outlen); }
     else { if (a) xof_cpp<ascon::xofa_with_output_length<64> >(m, n, out, outlen); else xof_cpp<ascon::xof_with_output_length<64> >(m, n, out, outlen); }
 }
+
+/* copies of the hash / XOF classes: the message is absorbed in two halves; between them the object is copy-constructed (0), assigned to another used object (1) or assigned to itself (2);
+ * the result is taken from the copy (or from the object itself for mode 2) */
+template <class X> static void xof_copy(const unsigned char *m, size_t n, unsigned char *out, size_t outlen, int mode, int squeezed_first)
+{
+    X x; unsigned char t[8]; x.absorb(m, n / 2);
+    (void)squeezed_first;
+    if (mode == 0) { X y(x); y.absorb(m + n / 2, n - n / 2); y.squeeze(out, outlen); x.absorb(m, 1); x.squeeze(t, 8); }
+    else if (mode == 1) { X y; y.absorb(m, 3); y.squeeze(t, 5); y = x; y.absorb(m + n / 2, n - n / 2); y.squeeze(out, outlen); }
+    else { const X &r = x; x = r; x.absorb(m + n / 2, n - n / 2); x.squeeze(out, outlen); }
+}
+template <class H> static void hash_copy(const unsigned char *m, size_t n, unsigned char *out, int mode)
+{
+    H h; unsigned char t[32]; h.update(m, n / 2);
+    if (mode == 0) { H g(h); g.update(m + n / 2, n - n / 2); g.finalize(out); h.update(m, 1); h.finalize(t); }
+    else if (mode == 1) { H g; g.update(m, 3); g = h; g.update(m + n / 2, n - n / 2); g.finalize(out); }
+    else { const H &r = h; h = r; h.update(m + n / 2, n - n / 2); h.finalize(out); }
+}
+extern "C" void cpp_xof_copy(int a, const unsigned char *m, size_t n, unsigned char *out, size_t outlen, int mode)
+{ if (a) xof_copy<ascon::xofa>(m, n, out, outlen, mode, 0); else xof_copy<ascon::xof>(m, n, out, outlen, mode, 0); }
+extern "C" void cpp_hash_copy(int a, const unsigned char *m, size_t n, unsigned char *out, int mode)
+{ if (a) hash_copy<ascon::hasha>(m, n, out, mode); else hash_copy<ascon::hash>(m, n, out, mode); }
